@@ -619,8 +619,16 @@ pub fn component_repetition(rng: &mut Rng) -> String {
     let mut s = String::new();
     s.push_str(rng.pick_str(HEAD));
     s.push('<');
-    s.push_str(rng.pick_str(BODY));
-    s.push_str(rng.pick_str(BNDS));
+    if rng.chance(1, 4) {
+        // Bodies of several components under an open-ended bound with a non-zero lower bound:
+        // unbounded in depth, yet only some depths are matched.
+        s.push_str(rng.pick_str(&["*/*/", "*/a/", "*/?/", "?/*/", "*/*/*/", "a/*/", "*/<?>/"]));
+        s.push_str(rng.pick_str(&[":1,", ":2,", ":3,", ":1,", ""]));
+    }
+    else {
+        s.push_str(rng.pick_str(BODY));
+        s.push_str(rng.pick_str(BNDS));
+    }
     s.push('>');
     s.push_str(rng.pick_str(TAIL));
     if rng.chance(1, 5) {
